@@ -39,6 +39,7 @@ package varmq
 //@ type worker: ghost $cancelEpoch Int
 //@ type worker: guarded_by mx: eventLoopSignal, errorChan, tickers, ctx, cancel
 //@ type worker: frozen workerFunc, pool, waiters, metrics, Configs
+//@ type worker: atomic concurrency, curProcessing, status
 // $disp: dispatcher goroutines reading w.eventLoopSignal (they return when that channel is closed)
 // $listeners: context listeners on w.ctx that have not fired yet; $armed: asynchronous Stop() calls triggered by cancel() and not yet run
 // $reapers: live idle-worker reapers; $nodes: pool goroutines started; $dispatched: jobs handed to a pool node; $freed: nodes given back
